@@ -20,15 +20,18 @@
 (* node), where the scope id comes from a counter; defaults (examples)     *)
 (* could be computed from ambient state.  The ambient state of a run - how *)
 (* many compilations the process did before (`prior`) and the wall clock   *)
-(* (`clock`) - is chosen freely in Init; AmbientFree says the generated     *)
-(* values are those of the run with prior = 0 and clock = 0.               *)
+(* (`clock`) and the working directory the process was started from       *)
+(* (`cwd`: 0 = the sources' directory, 1 = below it, 2 = its parent) - is  *)
+(* chosen freely in Init; AmbientFree says the generated values are those  *)
+(* of the run with prior = 0, clock = 0 and cwd = 0.                       *)
 (***************************************************************************)
 EXTENDS Naturals, Sequences, FiniteSets, TLC
 
 CONSTANTS Keys,               \* e.g. {"a", "b", "c"}
           ExamplesDiscipline, \* "source" (the design) or "hashed" (the pinned implementation)
           ScopeCounter,       \* "per-evaluation" (eval.rs: Context::scope_id_seq) or "per-process" (a static counter)
-          DefaultsReadClock   \* FALSE in the code: no default value is computed from the time of the run
+          DefaultsReadClock,  \* FALSE in the code: no default value is computed from the time of the run
+          HashedLocation      \* "absolute" (grammar.rs NodeRef::digest: the module's locator URL) or "cwd-relative"
 
 Collections == {"refs", "ranges", "xfers", "props", "examples"}
 Discipline(c) == CASE c = "examples" -> ExamplesDiscipline
@@ -40,18 +43,19 @@ Inj(S) == {f \in [1..Cardinality(S) -> S] : \A a, b \in 1..Cardinality(S) : a # 
 Sources == UNION {Inj(S) : S \in SUBSET Keys}
 
 VARIABLES coll, src, left, out,
-          prior, clock          \* ambient state of the run: earlier compilations in this process, wall clock
-vars == <<coll, src, left, out, prior, clock>>
+          prior, clock, cwd     \* ambient state of the run: earlier compilations in this process, wall clock, working directory
+vars == <<coll, src, left, out, prior, clock, cwd>>
 
 Init == /\ coll \in Collections /\ src \in Sources /\ left = {src[i] : i \in 1..Len(src)} /\ out = <<>>
-        /\ prior \in 0..2 /\ clock \in 0..2
+        /\ prior \in 0..2 /\ clock \in 0..2 /\ cwd \in 0..2
 
 \* every compilation pushes ScopesPerRun scopes; the k-th scope of this run gets the id
 ScopesPerRun == 2
 ScopeId(k) == IF ScopeCounter = "per-evaluation" THEN k ELSE prior * ScopesPerRun + k
-GeneratedName(k) == <<"hash", ScopeId(k)>>                 \* location and node are functions of the sources
+Location == IF HashedLocation = "absolute" THEN 0 ELSE cwd   \* the module location as it enters the digest
+GeneratedName(k) == <<"hash", Location, ScopeId(k)>>       \* the node is a function of the sources
 DefaultExample == IF DefaultsReadClock THEN clock ELSE 0
-AmbientFree == /\ \A k \in 1..ScopesPerRun : GeneratedName(k) = <<"hash", k>>
+AmbientFree == /\ \A k \in 1..ScopesPerRun : GeneratedName(k) = <<"hash", 0, k>>
                /\ DefaultExample = 0
 
 Rank(k) == CHOOSE i \in 1..Len(src) : src[i] = k
@@ -64,7 +68,7 @@ Eligible ==
 
 Emit == /\ left # {}
         /\ \E k \in Eligible : out' = Append(out, k) /\ left' = left \ {k}
-        /\ UNCHANGED <<coll, src, prior, clock>>
+        /\ UNCHANGED <<coll, src, prior, clock, cwd>>
 Done == left = {} /\ UNCHANGED vars
 Next == Emit \/ Done
 Spec == Init /\ [][Next]_vars /\ WF_vars(Emit)
